@@ -8,10 +8,11 @@ from .expr import as_bool, bnot, band, zb
 from .symex import Exec
 from .npmodel import NpMixin
 from .lazy import LazyMixin
+from .glue import GlueMixin
 from .stmts import NORMAL, RETURN, RAISE
 
 
-class Engine(LazyMixin, NpMixin, Exec):
+class Engine(GlueMixin, LazyMixin, NpMixin, Exec):
     pass
 
 
